@@ -5,6 +5,7 @@ use vcore::gen::op::*;
 use vcore::gen::rng::Rng;
 use vcore::gen::schema::*;
 use vcore::report::*;
+use vcore::sexp::{st, tagged, Sexp};
 
 /// the assignment with every declared nullable variable / input field present (explicit null)
 fn with_explicit_nulls(s: &ASchema, ty: &ATy, v: &Value) -> Value {
@@ -365,6 +366,57 @@ pub fn run(a: &Args) -> i32 {
                 }
                 Reply::Ok(other) => rep.fail("default-value-differs-from-the-declared-default", json!({"query": c.qtext, "reply": other, "expected_count": expected.len()})),
                 _ => rep.internal.push(format!("defaults reply of case {}: {}", cid, raw)),
+            }
+        }
+    }
+    // ---- the literal expressions of the `default_*` constructors: model (Model/DefaultLit.lean) = emitted code
+    if u.ctx.model.available() {
+        // floats compare as numbers (the model keeps the token of the document, the emitted code an f64 literal)
+        fn norm(s: &Sexp) -> Sexp {
+            if s.head() == Some("float") {
+                let t = s.items().get(1).and_then(|x| x.as_str()).unwrap_or("");
+                return match t.parse::<f64>() {
+                    Ok(f) => tagged("float", vec![st(&format!("{:?}", f))]),
+                    Err(_) => s.clone(),
+                };
+            }
+            match s {
+                Sexp::List(xs) => Sexp::List(xs.iter().map(norm).collect()),
+                other => other.clone(),
+            }
+        }
+        for c in &u.cases {
+            if c.lenient || !c.doc.ops.iter().any(|o| o.vars.iter().any(|v| v.default.is_some())) {
+                continue;
+            }
+            let src = match vcore::common::schema_src_sexp(&c.sdl, c.as_json) {
+                Ok(s) => s,
+                Err(_) => continue,
+            };
+            let reply = vcore::common::run_model_defaults(&mut u.ctx.model, &src, &c.sdl, &c.qtext, &c.opts);
+            if reply.head() != Some("defaults") {
+                // (a model driver without this request answers `bad-request`: nothing to compare)
+                rep.count(&format!("default-bodies:model-reply:{}", reply.head().unwrap_or("?")));
+                continue;
+            }
+            let model_fns: Vec<(String, Sexp)> = reply.items()[1..].iter().filter_map(|m| {
+                let it = m.items();
+                Some((it.first()?.as_str()?.to_string(), it.get(1)?.clone()))
+            }).collect();
+            match vcore::extract::default_bodies(&c.tokens) {
+                Err(e) => rep.disagree(json!({"what": "default bodies: the emitted constructors could not be read", "error": e, "query": c.qtext})),
+                Ok(mods) => {
+                    let real_fns: Vec<(String, Sexp)> = mods.into_iter().flat_map(|(_, fns)| fns).collect();
+                    rep.count_n("default-bodies:compared", real_fns.len() as u64);
+                    let render = |v: &Vec<(String, Sexp)>| v.iter().map(|(n, b)| format!("{} = {}", n, norm(b).render())).collect::<Vec<_>>();
+                    let (a, b) = (render(&model_fns), render(&real_fns));
+                    // (one module per operation: the model lists the functions of every operation in order, as the modules do)
+                    if a == b {
+                        rep.traces_validated += 1;
+                    } else {
+                        rep.disagree(json!({"what": "default bodies", "model": a, "implementation": b, "schema": c.sdl, "query": c.qtext, "options": c.opts.describe()}));
+                    }
+                }
             }
         }
     }
